@@ -2123,9 +2123,8 @@ NiGeometryData* NiTriShape::GetGeomData() const {
 };
 
 void NiTriShape::SetGeomData(NiGeometryData* geomDataPtr) {
-	auto geomData = dynamic_cast<NiTriShapeData*>(geomDataPtr);
-	if (geomData)
-		shapeData = geomData;
+	// Also clears the cached pointer when the data block is gone or of another type
+	shapeData = dynamic_cast<NiTriShapeData*>(geomDataPtr);
 }
 
 
@@ -2296,9 +2295,8 @@ NiGeometryData* NiTriStrips::GetGeomData() const {
 };
 
 void NiTriStrips::SetGeomData(NiGeometryData* geomDataPtr) {
-	auto geomData = dynamic_cast<NiTriStripsData*>(geomDataPtr);
-	if (geomData)
-		stripsData = geomData;
+	// Also clears the cached pointer when the data block is gone or of another type
+	stripsData = dynamic_cast<NiTriStripsData*>(geomDataPtr);
 }
 
 
@@ -2320,9 +2318,8 @@ NiGeometryData* NiLines::GetGeomData() const {
 }
 
 void NiLines::SetGeomData(NiGeometryData* geomDataPtr) {
-	auto geomData = dynamic_cast<NiLinesData*>(geomDataPtr);
-	if (geomData)
-		linesData = geomData;
+	// Also clears the cached pointer when the data block is gone or of another type
+	linesData = dynamic_cast<NiLinesData*>(geomDataPtr);
 }
 
 
@@ -2362,9 +2359,8 @@ NiGeometryData* NiScreenElements::GetGeomData() const {
 }
 
 void NiScreenElements::SetGeomData(NiGeometryData* geomDataPtr) {
-	auto geomData = dynamic_cast<NiScreenElementsData*>(geomDataPtr);
-	if (geomData)
-		elemData = geomData;
+	// Also clears the cached pointer when the data block is gone or of another type
+	elemData = dynamic_cast<NiScreenElementsData*>(geomDataPtr);
 }
 
 
@@ -2379,9 +2375,8 @@ NiGeometryData* BSLODTriShape::GetGeomData() const {
 }
 
 void BSLODTriShape::SetGeomData(NiGeometryData* geomDataPtr) {
-	auto geomData = dynamic_cast<NiTriShapeData*>(geomDataPtr);
-	if (geomData)
-		shapeData = geomData;
+	// Also clears the cached pointer when the data block is gone or of another type
+	shapeData = dynamic_cast<NiTriShapeData*>(geomDataPtr);
 }
 
 
